@@ -69,8 +69,11 @@ func StorageSplit(rng *rand.Rand, lines []string) *filterlist.RuleStorage {
 		parts[k] = append(parts[k], l)
 	}
 	contents := make([]string, nl)
+	// (line ends are part of the configuration: one storage in three has
+	// lists saved with CRLF)
+	eol := []string{"\n", "\n", "\r\n"}[rng.Intn(3)]
 	for i, p := range parts {
-		contents[i] = Lines(p)
+		contents[i] = LinesEOL(p, eol)
 	}
 	if nl >= 2 && rng.Intn(5) == 0 {
 		// A list without a single rule (empty, or comments only) between two
